@@ -293,6 +293,10 @@ pub enum Construction {
     Trailing(u16),
     /// empty / one byte / header prefixes
     Prefix(u8),
+    /// a message made of the smallest possible entries: `questions` questions
+    /// about the root (5 octets each) and `records` records owned by the root
+    /// with empty RDATA (11 octets each), spread over the three sections
+    Minimal { questions: u8, records: u8 },
 }
 
 fn header(qd: u16, an: u16, ns: u16, ar: u16) -> Vec<u8> {
@@ -344,6 +348,11 @@ impl Construction {
         }
         for n in 0..=12u8 {
             v.push(Prefix(n));
+        }
+        for questions in 0..=2u8 {
+            for records in [0u8, 1, 2, 3, 7, 40] {
+                v.push(Minimal { questions, records });
+            }
         }
         v
     }
@@ -516,6 +525,22 @@ impl Construction {
             Prefix(n) => {
                 let mut v = header(1, 0, 0, 0);
                 v.truncate(*n as usize);
+                v
+            }
+            Minimal { questions, records } => {
+                let r = u16::from(*records);
+                let (an, ns) = (r / 3, r / 3);
+                let mut v = header(u16::from(*questions), an, ns, r - an - ns);
+                for _ in 0..*questions {
+                    v.extend_from_slice(&[0, 0, 2, 0, 1]); // . NS IN
+                }
+                for i in 0..r {
+                    // . <NULL | OPT-like unknown type> IN ttl 0 rdlength 0
+                    let t: u16 = if i % 2 == 0 { 10 } else { 41 };
+                    v.push(0);
+                    v.extend_from_slice(&t.to_be_bytes());
+                    v.extend_from_slice(&[0, 1, 0, 0, 0, 0, 0, 0]);
+                }
                 v
             }
         }
